@@ -64,7 +64,7 @@ def main():
     if os.path.exists(rp):
         for l in open(rp):
             f = [x.strip() for x in l.strip().strip("|").split("|")]
-            if len(f) == 4 and re.match(r"[0-9a-f]{8}$", f[0]):
+            if len(f) == 4 and re.match(r"[0-9a-f]{8}", f[0]):
                 table[(f[0], f[1])] = f
     for r in rows:
         table[(r[0], r[1])] = list(r)
